@@ -273,12 +273,15 @@ func c08(env *core.Env, kind string, immutable bool) {
 	for _, e := range all {
 		if (e.op.Kind == reg.GetBlob || e.op.Kind == reg.GetManifest) && e.res.Err == nil && e.res.ReadErr == nil {
 			if reg.Sha256(e.res.Data) != e.op.Digest {
-				env.Failf("C08/stored-content-digest-mismatch/"+e.op.Kind.String(), "task %d: %s returned %d bytes that do not hash to the digest asked for", e.task, e.op, len(e.res.Data))
+				env.Failf(env.Property+"/stored-content-digest-mismatch/"+e.op.Kind.String(), "task %d: %s returned %d bytes that do not hash to the digest asked for", e.task, e.op, len(e.res.Data))
 			}
 		}
 	}
 	if core.EngineB {
 		return // engine B's oracle is the race detector
+	}
+	if env.Property != "C08" {
+		return // (C01 runs this family for its digest invariant only)
 	}
 	checkLinearizable(env, m0, all, "C08")
 	})
@@ -515,16 +518,16 @@ func c08commitWrite(env *core.Env) {
 	br, err := mem.GetBlob(ctx, repo, reg.Sha256(base))
 	if err != nil {
 		if commitErr == nil {
-			env.Failf("C08/commit-lost", "Commit succeeded but the blob is not there: %v", err)
+			env.Failf(env.Property+"/commit-lost", "Commit succeeded but the blob is not there: %v", err)
 		}
 		return
 	}
 	data, _ := readAll(br)
 	if reg.Sha256(data) != reg.Sha256(base) {
-		env.Failf("C08/stored-content-digest-mismatch/commit", "after a commit that raced with writes, the blob stored under %s has %d bytes (%q) that do not hash to it", reg.Sha256(base), len(data), data)
+		env.Failf(env.Property+"/stored-content-digest-mismatch/commit", "after a commit that raced with writes, the blob stored under %s has %d bytes (%q) that do not hash to it", reg.Sha256(base), len(data), data)
 	}
 	if commitErr == nil && commitDesc.Size != int64(len(base)) && commitDesc.Size != int64(len(data)) {
-		env.Failf("C08/commit-descriptor-size", "Commit returned size %d for a blob of %d bytes", commitDesc.Size, len(data))
+		env.Failf(env.Property+"/commit-descriptor-size", "Commit returned size %d for a blob of %d bytes", commitDesc.Size, len(data))
 	}
 	})
 }
